@@ -33,14 +33,14 @@ class Result:
 
 
 def run_cbmc(files, function="harness", defines=(), unwind=None, unwindset=None, extra=(), timeout=600,
-             mem_gb=24, witness=False, repo=None, cwd=None, want_trace=True, backend=()):
+             mem_gb=24, witness=False, repo=None, cwd=None, want_trace=True, backend=(), flags_override=None):
     repo = repo or REPO
     cmd = ["cbmc"] + list(files) + ["--function", function, "--json-ui"]
     cmd += inc_flags(repo) + ["-I" + os.path.join(VERIF, "cbmc")] + BASE_DEFS + ["-DNO_COMPAT_ISAL_CRYPTO_API_2_24"] + list(defines)
     if witness:
         cmd += ["-DWITNESS"] + WITNESS_FLAGS
     else:
-        cmd += CBMC_FLAGS
+        cmd += (flags_override if flags_override is not None else CBMC_FLAGS)
     if unwind is not None:
         cmd += ["--unwind", str(unwind)]
     if unwindset:
@@ -98,18 +98,17 @@ def run_cbmc(files, function="harness", defines=(), unwind=None, unwindset=None,
     unw = [x for x in fails if ".unwind." in x["property"] or "recursion" in x["property"]]
     real = [x for x in fails if x not in unw]
     for x in real:
-        nd = {}
+        nds = []
         extras = {}
         for s in x.get("trace", []):
             if s.get("stepType") == "assignment":
                 lhs = s.get("lhs", "")
-                m = re.match(r"nd_log\[(\d+)l?\]$", lhs)
                 v = s.get("value", {})
-                if m and "binary" in v:
-                    nd[int(m.group(1))] = int(v["binary"], 2)
+                if lhs == "nd_cur" and "binary" in v and not s.get("hidden", False):
+                    if s.get("assignmentType") == "variable" or True:
+                        nds.append(int(v["binary"], 2))
                 elif lhs.startswith("cex_") and "binary" in v:
                     extras[lhs] = int(v["binary"], 2)
-        nds = [nd.get(i, 0) for i in range(max(nd) + 1)] if nd else []
         desc = x.get("description", "")
         if "pointer arithmetic" in desc or "pointer_arithmetic" in x["property"]:
             r.pointer_overflow_only.append((x["property"], desc))
@@ -130,7 +129,7 @@ def native_replay(files, nd_values, defines=(), outdir=None, repo=None, function
     nondeterministic draws.  Returns (reproduced: bool, output)."""
     repo = repo or REPO
     exe = os.path.join(outdir, "replay_" + os.path.basename(files[0]).replace(".c", ""))
-    cmd = ["gcc", "-O0", "-g", "-w", "-DREPLAY", "-DHARNESS_FN=" + function] + inc_flags(repo) + ["-I" + os.path.join(VERIF, "cbmc")] + \
+    cmd = ["gcc", "-O0", "-g", "-w", "-no-pie", "-Wl,--unresolved-symbols=ignore-all", "-DREPLAY", "-DHARNESS_FN=" + function] + inc_flags(repo) + ["-I" + os.path.join(VERIF, "cbmc")] + \
         BASE_DEFS + ["-DNO_COMPAT_ISAL_CRYPTO_API_2_24"] + list(defines) + list(files) + [os.path.join(VERIF, "cbmc", "replay_main.c"), "-o", exe]
     p = subprocess.run(cmd, capture_output=True, text=True)
     if p.returncode != 0:
